@@ -42,6 +42,7 @@ type commitLog struct {
 	compactCleaner   *compactCleaner
 	name             string
 	mu               sync.RWMutex
+	appendMu         sync.Mutex // Serializes appends with age-based segment rolls
 	hw               int64
 	closed           chan struct{}
 	segments         []*segment
@@ -222,6 +223,12 @@ func (l *commitLog) Append(msgs []*Message) ([]int64, error) {
 	if l.IsReadonly() {
 		return nil, ErrCommitLogReadonly
 	}
+	// Hold appendMu from the split check to the write: the cleaner loop must
+	// not roll and seal the active segment after it was loaded here, otherwise
+	// the write lands in the sealed segment and its offsets are handed out
+	// again by the new one.
+	l.appendMu.Lock()
+	defer l.appendMu.Unlock()
 	if _, err := l.checkAndPerformSplit(); err != nil {
 		return nil, err
 	}
@@ -242,6 +249,8 @@ func (l *commitLog) Append(msgs []*Message) ([]int64, error) {
 // in readonly mode to allow for reconciliation, e.g. when replicating from
 // another log.
 func (l *commitLog) AppendMessageSet(ms []byte) ([]int64, error) {
+	l.appendMu.Lock()
+	defer l.appendMu.Unlock()
 	if _, err := l.checkAndPerformSplit(); err != nil {
 		return nil, err
 	}
@@ -689,6 +698,14 @@ func (l *commitLog) checkAndPerformSplit() (bool, error) {
 	}
 }
 
+// rollActiveSegment is checkAndPerformSplit for callers other than appends. It
+// excludes a concurrent append which has already loaded the active segment.
+func (l *commitLog) rollActiveSegment() (bool, error) {
+	l.appendMu.Lock()
+	defer l.appendMu.Unlock()
+	return l.checkAndPerformSplit()
+}
+
 func (l *commitLog) split(oldActiveSegment *segment) error {
 	offset := l.NewestOffset() + 1
 	l.Logger.Debugf("Appending new log segment for %s with base offset %d", l.Path, offset)
@@ -723,7 +740,7 @@ func (l *commitLog) cleanerLoop() {
 		}
 
 		// Check to see if the active segment should be split.
-		split, err := l.checkAndPerformSplit()
+		split, err := l.rollActiveSegment()
 		if err != nil {
 			l.Logger.Errorf("Failed to split log %s: %v", l.Path, err)
 			continue
